@@ -46,6 +46,12 @@ fn taint(rng: &mut Rng, spec: &mut MetaSpec, tag: &mut u32) -> usize {
             let at = rng.usize_below(spec.len() + 1);
             spec.insert(at, (r.to_string(), MVal::Ascii(format!("USERVAL-{}", tag))));
             n += 1;
+            if rng.chance(1, 3) {
+                // the same reserved name appended again (a multi-valued reserved entry)
+                *tag += 1;
+                let at2 = rng.usize_below(spec.len() + 1);
+                spec.insert(at2, (r.to_string(), MVal::Ascii(format!("USERVAL-{}", tag))));
+            }
         }
     }
     n
